@@ -30,6 +30,7 @@ EVID = os.environ.get("VERIF_EVIDENCE_DIR") or os.path.join(HERE, "evidence")
 REPL = os.environ.get("VERIF_REPLAY_DIR") or os.path.join(HERE, "replays")
 NCPU = int(os.environ.get("VERIF_JOBS", "16"))
 GRACE_AFTER_FAILURE = 45
+WARM_TIMEOUT = int(os.environ.get("VERIF_WARM_TIMEOUT", "600"))
 
 
 def tree_hash():
@@ -84,10 +85,14 @@ def warm(mode, thash):
         if os.path.exists(marker):
             return
         t0 = time.time()
-        r = subprocess.run([PY, "-m", "vlib.warm"], cwd=HERE, env=base_env(mode, thash), capture_output=True, text=True)
-        if r.returncode != 0:
-            sys.stderr.write(r.stdout[-4000:] + r.stderr[-4000:])
-            raise SystemExit(2)
+        # only compilation matters here; on a broken tree the warm-up calls themselves may never return: after the time
+        # limit the workers go on with whatever was compiled (they compile the rest themselves, under their own watchdog)
+        try:
+            r = subprocess.run([PY, "-m", "vlib.warm"], cwd=HERE, env=base_env(mode, thash), capture_output=True, text=True, timeout=WARM_TIMEOUT)
+            if r.returncode != 0:
+                sys.stderr.write("warm-up exited %s: %s\n" % (r.returncode, (r.stdout[-1000:] + r.stderr[-2000:])))
+        except subprocess.TimeoutExpired:
+            sys.stderr.write("warm-up did not finish within %d s; continuing\n" % WARM_TIMEOUT)
         open(marker, "w").write("%.1f" % (time.time() - t0))
 
 
